@@ -251,7 +251,8 @@ impl Corpus {
             "/repo/src/tests/fixtures/wikilinks_title_after_pipe.md",
             "/repo/src/tests/fixtures/wikilinks_title_before_pipe.md",
         ] {
-            if let Ok(s) = std::fs::read_to_string(p) {
+            let p = p.replacen("/repo", &crate::util::repo_root(), 1);
+            if let Ok(s) = std::fs::read_to_string(&p) {
                 docs.push(s);
             }
         }
